@@ -46,7 +46,9 @@ pub fn arity(op: &str) -> Option<usize> {
         "union" | "chain" | "join" | "xsing" | "antijoin" | "notin" | "joinb" | "antijoinb" | "notinb" => 2,
         "kunion" | "joinlb" => 2,
         "reduceb" | "kreduce" | "klimit" | "kenum" | "kfirst" => 1,
-        "b0" | "b1" | "cyc" => 0,
+        "b0" | "b1" | "cyc" | "sing" | "ofirst" => 0,
+        "toopt" => 1,
+        "or" | "unwrapor" => 2,
         "sort" | "limit" | "count" | "max" | "min" | "first" | "last" | "tostream" | "defer" | "across" => 1,
         "map" | "filter" | "flatmap" | "filtermap" | "enumerate" | "scan" | "unique" | "kscan" | "fold" | "reduce"
         | "kfold" | "foldb" | "smap" | "sfilter" => 1,
@@ -109,6 +111,7 @@ fn predf(code: &str, v: &V) -> bool {
         "even" => v.int() % 2 == 0,
         "pos" => v.int() > 0,
         "small" => v.int() < 5,
+        "any" => true,
         "keven" => v.pair().0.int() % 2 == 0,
         "vodd" => v.pair().1.int() % 2 != 0,
         _ => panic!("pred code {code}"),
@@ -295,26 +298,49 @@ pub fn eval(t: &T, ins: &[Vec<i64>; 2]) -> Vec<V> {
     }
 }
 
-/// A tick-level program: what goes to `complete_next_tick` (if any) and the observed collection.
+/// A tick-level program: its head (`tick` no cycle, `tcyc` stream cycle, `tcycp` plain Optional cycle, `tcyco` /
+/// `tcycs` Optional / Singleton cycle created with `cycle_with_initial`), the initial value (if any), what goes to
+/// `complete_next_tick` (if any) and the observed collection.
 pub struct TickProg {
+    pub head: String,
+    pub init: Option<T>,
     pub next: Option<T>,
     pub out: T,
 }
 
-pub fn parse_tick_prog(tokens: &[&str]) -> Option<TickProg> {
-    match tokens.first()? {
-        &"tick" => Some(TickProg { next: None, out: parse(&tokens[1..])? }),
-        &"tcyc" => {
-            // NEXT then OUT: find the split by parsing a prefix
-            for cut in 2..tokens.len() {
-                if let (Some(n), Some(o)) = (parse(&tokens[1..cut]), parse(&tokens[cut..])) {
-                    return Some(TickProg { next: Some(n), out: o });
-                }
-            }
-            None
-        }
-        _ => None,
+/// split `tokens` into exactly `n` consecutive complete terms
+fn parse_seq(tokens: &[&str], n: usize) -> Option<Vec<T>> {
+    if n == 0 {
+        return if tokens.is_empty() { Some(vec![]) } else { None };
     }
+    for cut in 1..=tokens.len() {
+        if let Some(first) = parse(&tokens[..cut]) {
+            if let Some(mut rest) = parse_seq(&tokens[cut..], n - 1) {
+                rest.insert(0, first);
+                return Some(rest);
+            }
+        }
+    }
+    None
+}
+
+pub fn is_tick_head(w: &str) -> bool {
+    matches!(w, "tick" | "tcyc" | "tcycp" | "tcyco" | "tcycs")
+}
+
+pub fn parse_tick_prog(tokens: &[&str]) -> Option<TickProg> {
+    let head = tokens.first()?.to_string();
+    let n = match head.as_str() {
+        "tick" => 1,
+        "tcyc" | "tcycp" => 2,
+        "tcyco" | "tcycs" => 3,
+        _ => return None,
+    };
+    let mut ts = parse_seq(&tokens[1..], n)?;
+    let out = ts.pop()?;
+    let next = ts.pop();
+    let init = ts.pop();
+    Some(TickProg { head, init, next, out })
 }
 
 /// content of the tick-scoped collection `t` in the LAST tick of `hist` — plain iterators over the tick's
@@ -325,10 +351,34 @@ pub fn eval_tick(p: &TickProg, t: &T, hist: &[(Vec<i64>, Vec<i64>)]) -> Vec<V> {
     match t.op.as_str() {
         "b0" => now.map(|n| n.0.iter().map(|x| V::I(*x)).collect()).unwrap_or_default(),
         "b1" => now.map(|n| n.1.iter().map(|x| V::I(*x)).collect()).unwrap_or_default(),
+        // the value read from a tick cycle: EXACTLY what the previous tick passed to `complete_next_tick`
+        // (possibly nothing / null); in the first tick nothing, or the initial value of `cycle_with_initial` —
+        // which is looked at in the first tick ONLY
         "cyc" => match (&p.next, hist.len()) {
-            (Some(n), l) if l >= 2 => eval_tick(p, n, &hist[..l - 1]),
+            (Some(n), l) if l >= 2 => {
+                let sent = eval_tick(p, n, &hist[..l - 1]);
+                match p.head.as_str() {
+                    "tcyc" => sent,
+                    _ => sent.into_iter().next().into_iter().collect(), // an Optional / Singleton: at most one value
+                }
+            }
+            (Some(_), 1) => match &p.init {
+                Some(init) => eval_tick(p, init, hist).into_iter().next().into_iter().collect(),
+                None => vec![],
+            },
             _ => vec![],
         },
+        "sing" => vec![V::I(t.arg.parse().unwrap())], // tick.singleton(v): v in every tick
+        "ofirst" => {
+            // tick.optional_first_tick(v): v in the first tick, null afterwards
+            if hist.len() == 1 { vec![V::I(t.arg.parse().unwrap())] } else { vec![] }
+        }
+        "toopt" => kid(0),
+        "or" | "unwrapor" => {
+            let a: Option<V> = kid(0).into_iter().next();
+            let b: Option<V> = kid(1).into_iter().next();
+            a.or(b).into_iter().collect()
+        }
         "defer" => {
             if hist.len() >= 2 {
                 eval_tick(p, &t.kids[0], &hist[..hist.len() - 1])
@@ -411,7 +461,7 @@ pub fn eval_tick(p: &TickProg, t: &T, hist: &[(Vec<i64>, Vec<i64>)]) -> Vec<V> {
 
 /// does the tick term look at earlier ticks?
 pub fn tick_stateless(t: &T) -> bool {
-    !matches!(t.op.as_str(), "cyc" | "defer" | "across") && t.kids.iter().all(tick_stateless)
+    !matches!(t.op.as_str(), "cyc" | "defer" | "across" | "ofirst") && t.kids.iter().all(tick_stateless)
 }
 
 /// canonical printed form of a batch by kind (the same rule as the Lean driver's `canon`)
